@@ -173,7 +173,7 @@ func c13(c *core.Check) {
 		r2.Cond(marked, name+" | the spanned rows mark the cell's columns", p.Pos(fn.Pos()), "columns GridX … GridX+Colspan-1 are marked occupied in every spanned row", "the columns marked as occupied in the spanned rows are not exactly those of the cell")
 	}
 
-	r3 := c.Rule("R3", "the table layout code mirrors its side-symmetric assignments, sums margins, paddings and borders with consistent sides, and passes its named arguments in order", 9)
+	r3 := c.Rule("R3", "the table layout code mirrors its side-symmetric assignments, sums margins, paddings and borders with consistent sides, and passes its named arguments in order", 6)
 	tfiles := map[string]bool{"tables.go": true}
 	sideSymmetryRule(c, r3, "html/layout", tfiles, 0)
 	sideSumRule(c, r3, "html/layout", tfiles, 1)
